@@ -19,6 +19,7 @@ RULE = ('a case is one chunk store: T<=10 dumps, F<=8 channels, B<=6 products (4
 ASSUMPTIONS = ['chunk sizes are positive (zero-size chunks only arise from an empty preselection, where no element exists)',
                'stored values are exactly representable (small integers); weights are compared exactly',
                'van_vleck off, stored weights already scaled (weights = weights * weights_channel)',
+               'through VisibilityDataV4 only non-empty preselections (a data set without dumps or channels cannot be constructed)',
                'dask graph assembly, numpy slicing assignment and NpyFileChunkStore file naming are exercised, not modelled']
 
 NAMES = fx.ARRAYS
@@ -105,6 +106,10 @@ def gen_case(rng, path=None, small=False):
         lost[k] = [list(map(int, i)) for i in idxs if rng.random() < p]
     npre = rng.choice([0, 1, 2, 2])
     pre = [rnd_window(rng, max(nd.values())), rnd_window(rng, F)][:npre]
+    if path == 'v4':     # a data set object needs at least one dump and one channel
+        dims = [max(nd.values()), F]
+        pre = [None if (w is not None and norm_window(w, n) and norm_window(w, n)[0] == norm_window(w, n)[1]) else w
+               for w, n in zip(pre, dims)]
     return dict(F=F, B=B, nd=nd, chunks=chunks, lost=lost, pre=pre, path=path, l1=l1, seed=rng.randint(0, 10 ** 6))
 
 
@@ -177,7 +182,7 @@ def py_spec(case, vals):
 def case_features(case):
     npre = ''.join(('t' if i == 0 else 'f') for i, w in enumerate(case['pre']) if w is not None) or 'none'
     dumps = 'equal' if len(set(case['nd'].values())) == 1 else 'differ'
-    return 'path=%s;pre=%s;dumps=%s;l1=%d' % (case['path'], npre, dumps, int(bool(case.get('l1'))))
+    return 'path=%s;pre=%s;dumps=%s' % (case['path'], npre, dumps)
 
 
 def classify(obs, impl, exp):
@@ -218,6 +223,8 @@ def check_store(ctx, case, mout=None, tag='c06'):
             out, dchunks, vals = fx.observe(case, tmp)
         except Exception as e:    # the property says loading still succeeds
             if empty_window(case):
+                if case['path'] == 'v4':
+                    return None      # a VisibilityDataV4 without dumps / channels cannot be built: not this property
                 feats = 'window=empty'
             ctx.disagree('%s;symptom=raises:%s' % (feats, type(e).__name__), case, repr(e)[:300], None,
                          'loading a store with absent chunks raised')
